@@ -19,8 +19,9 @@ from collections import Counter
 VERIF = os.path.dirname(os.path.dirname(os.path.abspath(__file__)))
 REPO = os.environ.get("GV_REPO", "/repo")
 TARGET = os.path.join(VERIF, "target")
-WORKER_BIN = os.path.join(TARGET, "rel", "release", "gv-worker")
-CLI_BIN = os.path.join(TARGET, "cli", "release", "cfn-guard")
+# GV_WORKER_BIN: run the monitors on another build of the same worker (coverage measurement, ./cov.sh); registered commands never set it
+WORKER_BIN = os.environ.get("GV_WORKER_BIN") or os.path.join(TARGET, "rel", "release", "gv-worker")
+CLI_BIN = os.environ.get("GV_CLI_BIN") or os.path.join(TARGET, "cli", "release", "cfn-guard")
 # same worker, optimised, but with arithmetic-overflow checks compiled in (what a debug build would panic on and a release build silently wraps)
 OVF_BIN = os.path.join(TARGET, "ovf", "release", "gv-worker")
 SCRATCH = os.path.join(TARGET, "scratch")
